@@ -81,6 +81,32 @@ pub fn any_bool(tag: &'static str) -> bool {
     draw(tag, 0, 1) != 0
 }
 
+/// branch-free selection: under mirsym this builds an if-then-else term instead of forking the path
+#[inline(never)]
+pub fn ite_u64(c: bool, a: u64, b: u64) -> u64 {
+    if c {
+        a
+    } else {
+        b
+    }
+}
+#[inline(never)]
+pub fn ite_f64(c: bool, a: f64, b: f64) -> f64 {
+    if c {
+        a
+    } else {
+        b
+    }
+}
+#[inline(never)]
+pub fn ite_i64(c: bool, a: i64, b: i64) -> i64 {
+    if c {
+        a
+    } else {
+        b
+    }
+}
+
 #[inline(never)]
 pub fn assume(c: bool) {
     if !c {
